@@ -30,6 +30,43 @@ type Arg struct {
 	I     int
 	F     float64
 	Const bool // scalar: build the constant type (only for interface-typed parameters)
+	// Alias: the operand is not built on its own but derived from the receiver
+	// object of the same invocation: recv (the receiver itself), view (a
+	// full-range Slice of it), T (its transpose view), elem (its element I).
+	// The spec fields then describe the receiver's content (for the classes).
+	Alias string
+}
+
+// Derive returns the aliased operand for the built receiver.
+func (a Arg) Derive(recv reflect.Value) reflect.Value {
+	switch obj := recv.Interface().(type) {
+	case ad.Matrix:
+		rows, cols := obj.Dims()
+		switch a.Alias {
+		case "recv":
+			return recv
+		case "view":
+			return reflect.ValueOf(obj.Slice(0, rows, 0, cols))
+		case "T":
+			return reflect.ValueOf(obj.T())
+		case "elem":
+			return reflect.ValueOf(obj.At(a.I/cols, a.I%cols))
+		}
+	case ad.Vector:
+		switch a.Alias {
+		case "recv":
+			return recv
+		case "view":
+			return reflect.ValueOf(obj.Slice(0, obj.Dim()))
+		case "elem":
+			return reflect.ValueOf(obj.At(a.I))
+		}
+	default:
+		if a.Alias == "recv" {
+			return recv
+		}
+	}
+	panic("c09: cannot derive alias " + a.Alias)
 }
 
 // Built is a constructed operand: the object handed to the method and, for
@@ -140,6 +177,12 @@ func fillMatrix(m ad.Matrix, s gen.MatrixSpec) {
 }
 
 func (a Arg) String() string {
+	if a.Alias != "" {
+		if a.Alias == "elem" {
+			return fmt.Sprintf("<element %d of the receiver>", a.I)
+		}
+		return "<" + map[string]string{"recv": "the receiver itself", "view": "full-range Slice of the receiver", "T": "T() of the receiver"}[a.Alias] + ">"
+	}
 	switch a.Kind {
 	case "int":
 		return fmt.Sprint(a.I)
